@@ -23,6 +23,7 @@ pub const K_SCHED: u8 = 1;
 pub const K_WAKE: u8 = 2;
 pub const K_FAULT: u8 = 3; // generic fault coin / choice (fs errno, short write, io chunking ...)
 pub const K_WORK: u8 = 4; // workload-side choice drawn during the run (rare)
+pub const K_PREEMPT: u8 = 5; // gap (in executed coverage edges) until the next pre-emption
 
 #[derive(Clone, Copy, PartialEq, Debug)]
 pub enum St {
@@ -44,6 +45,7 @@ pub enum Why {
     Wake,
     Fs,
     Clock,
+    Preempt,
 }
 
 pub struct Slot {
@@ -77,11 +79,21 @@ pub struct Cfg {
     /// in strict replay a kind mismatch or an exhausted list marks the run as diverged
     pub strict: bool,
     pub trace: bool,
+    /// pre-emption between libc calls at instrumented basic-block edges: chance (permille) that another pre-emption
+    /// follows the previous one; 0 = never pre-empt
+    #[serde(default)]
+    pub preempt_more_permille: u32,
+    /// gaps between pre-emptions are drawn from 1..=preempt_max_gap executed edges
+    #[serde(default)]
+    pub preempt_max_gap: u64,
+    /// "new code location" pre-emptions are drawn from 1..=preempt_max_distinct further distinct edges
+    #[serde(default)]
+    pub preempt_max_distinct: u64,
 }
 
 impl Cfg {
     pub fn new(seed: u64) -> Self {
-        Cfg { seed, policy: Policy::RandomWalk { stay: 800 }, max_steps: 200_000, point_permille: 1000, point_salt: 0, replay: None, strict: false, trace: false }
+        Cfg { seed, policy: Policy::RandomWalk { stay: 800 }, max_steps: 200_000, point_permille: 1000, point_salt: 0, replay: None, strict: false, trace: false, preempt_more_permille: 0, preempt_max_gap: 1000, preempt_max_distinct: 300 }
     }
 }
 
@@ -114,6 +126,8 @@ pub struct Rt {
     pub max_live: usize,
     pub faults_fired: BTreeMap<String, u64>,
     pub user: Vec<String>, // scenario history records (written under the baton)
+    pub edges: u64,
+    pub preemptions: u64,
 }
 
 struct Global(UnsafeCell<Option<Rt>>);
@@ -407,8 +421,10 @@ unsafe fn pick(cur: usize, why: Why) -> Option<usize> {
         promote_due(r);
         let cur_runnable = cur < r.n && r.slots[cur].st == St::Runnable;
         let mut cands: Vec<usize> = Vec::with_capacity(8);
-        // default (index 0) = stay on the current thread, except after a yield where the default is "someone else"
-        if cur_runnable && why != Why::Yield {
+        // default (index 0) = stay on the current thread, except after a yield or a pre-emption where the default is
+        // "someone else"
+        let away = why == Why::Yield || why == Why::Preempt;
+        if cur_runnable && !away {
             cands.push(cur);
         }
         for i in 0..r.n {
@@ -416,12 +432,12 @@ unsafe fn pick(cur: usize, why: Why) -> Option<usize> {
                 cands.push(i);
             }
         }
-        if cur_runnable && why == Why::Yield {
+        if cur_runnable && away {
             cands.push(cur);
         }
         if !cands.is_empty() {
             let k = cands.len();
-            let stay_first = cur_runnable && why != Why::Yield;
+            let stay_first = cur_runnable && !away;
             let c = decide(K_SCHED, k, |r| match r.cfg.policy {
                 Policy::Uniform => r.sched_rng.usize_below(k),
                 Policy::RandomWalk { stay } => {
@@ -431,7 +447,7 @@ unsafe fn pick(cur: usize, why: Why) -> Option<usize> {
                         } else {
                             1 + r.sched_rng.usize_below(k - 1)
                         }
-                    } else if why == Why::Yield && cur_runnable {
+                    } else if away && cur_runnable {
                         // prefer anyone but the yielder
                         r.sched_rng.usize_below(k - 1)
                     } else {
@@ -541,6 +557,116 @@ pub unsafe extern "C" fn gix_verif_point(label: *const u8, len: usize) {
 }
 
 // ---------------------------------------------------------------------------------------------------------------
+// pre-emption at instrumented basic-block edges (SanitizerCoverage trace-pc-guard callbacks, see rustc-wrapper.sh)
+
+/// Time slice: a thread that executes this many instrumented edges without reaching any scheduling point is
+/// pre-empted anyway (as an OS would), so that spin-waits on a pre-empted peer make progress. Deterministic.
+const EDGE_OFF: i64 = 20_000;
+static mut EDGE_COUNTDOWN: i64 = EDGE_OFF;
+static mut EDGE_BASE: i64 = EDGE_OFF;
+static mut N_GUARDS: u32 = 0;
+static mut PLANNED: bool = false;
+static mut SEEN: Vec<u64> = Vec::new();
+static mut DISTINCT: u64 = 0;
+static mut DISTINCT_TARGET: u64 = u64::MAX;
+
+unsafe fn arm_next_preemption(first: bool) {
+    let r = rt();
+    let more = r.cfg.preempt_more_permille;
+    let max_gap = r.cfg.preempt_max_gap.max(1) as i64;
+    let max_distinct = r.cfg.preempt_max_distinct.max(1);
+    // first decision: 0 = no further pre-emption, 1 = after a number of executed edges ("time"),
+    // 2 = at the first visit of the k-th further distinct edge of this run ("new code location");
+    // second decision: the number itself
+    let c = decide(K_PREEMPT, 3, |r| {
+        if !first && !r.sched_rng.chance(more) {
+            0
+        } else {
+            1 + r.sched_rng.usize_below(2)
+        }
+    });
+    DISTINCT_TARGET = u64::MAX;
+    let gap = match c {
+        0 => EDGE_OFF,
+        1 => {
+            let n = max_gap.min(60_000) as usize;
+            1 + decide(K_PREEMPT, n, |r| r.sched_rng.usize_below(n)) as i64
+        }
+        _ => {
+            let n = max_distinct.min(60_000) as usize;
+            DISTINCT_TARGET = DISTINCT + 1 + decide(K_PREEMPT, n, |r| r.sched_rng.usize_below(n)) as u64;
+            EDGE_OFF
+        }
+    };
+    EDGE_COUNTDOWN = gap;
+    EDGE_BASE = gap;
+}
+
+#[no_mangle]
+pub unsafe extern "C" fn __sanitizer_cov_trace_pc_guard(_guard: *mut u32) {
+    // fast path: not a sim thread
+    if ME.with(|m| m.get()) == usize::MAX {
+        return;
+    }
+    let id = *_guard as usize;
+    if id != 0 && (id >> 6) < SEEN.len() {
+        let (w, b) = (id >> 6, 1u64 << (id & 63));
+        if SEEN[w] & b == 0 {
+            SEEN[w] |= b;
+            DISTINCT += 1;
+            if DISTINCT >= DISTINCT_TARGET && BYPASS.with(|b| b.get()) == 0 {
+                DISTINCT_TARGET = u64::MAX;
+                // behave like an expired planned gap
+                EDGE_BASE = EDGE_BASE - EDGE_COUNTDOWN + 1;
+                EDGE_COUNTDOWN = 1;
+                PLANNED = true;
+            }
+        }
+    }
+    EDGE_COUNTDOWN -= 1;
+    if EDGE_COUNTDOWN > 0 {
+        return;
+    }
+    if let Some(m) = me() {
+        let r = rt();
+        r.edges += (EDGE_BASE - EDGE_COUNTDOWN) as u64;
+        let slice_expired = EDGE_BASE == EDGE_OFF && !PLANNED;
+        PLANNED = false;
+        EDGE_COUNTDOWN = EDGE_OFF; // (re-armed below / by the next thread's own expiry)
+        EDGE_BASE = EDGE_OFF;
+        if slice_expired {
+            // not a planned pre-emption: the thread used up its time slice (typically a spin-wait)
+            *r.probes.entry("time-slice-expired".to_string()).or_insert(0) += 1;
+            event("timeslice");
+            switch_from(m, Why::Yield);
+            EDGE_COUNTDOWN = EDGE_OFF;
+            EDGE_BASE = EDGE_OFF;
+        } else {
+            r.preemptions += 1;
+            event("preempt");
+            // plan the next pre-emption now: it applies to whichever thread runs next
+            arm_next_preemption(false);
+            switch_from(m, Why::Preempt);
+        }
+    } else {
+        // bypassed section: try again a little later
+        EDGE_COUNTDOWN = 50;
+    }
+}
+#[no_mangle]
+pub unsafe extern "C" fn __sanitizer_cov_trace_pc_guard_init(start: *mut u32, stop: *mut u32) {
+    // number the static edges 1..N (same binary => same numbering)
+    let mut p = start;
+    while p < stop {
+        if *p == 0 {
+            N_GUARDS += 1;
+            *p = N_GUARDS;
+        }
+        p = p.add(1);
+    }
+}
+
+// ---------------------------------------------------------------------------------------------------------------
 // threads
 
 struct Tramp {
@@ -553,6 +679,15 @@ extern "C" fn trampoline(p: *mut libc::c_void) -> *mut libc::c_void {
         let t = Box::from_raw(p as *mut Tramp);
         ME.with(|m| m.set(t.id));
         wait_baton(t.id);
+        if t.id == 0 && rt().cfg.preempt_more_permille > 0 {
+            arm_next_preemption(true);
+        }
+        if t.id == 0 {
+            // debugging aid: force one pre-emption at the n-th distinct edge
+            if let Some(n) = std::env::var("GIXSIM_FORCE_DISTINCT").ok().and_then(|v| v.parse::<u64>().ok()) {
+                DISTINCT_TARGET = n;
+            }
+        }
         let ret = (t.start)(t.arg);
         // still holding the baton
         BYPASS.with(|b| b.set(0));
@@ -912,6 +1047,9 @@ pub struct Outcome {
     pub panics: Vec<String>,
     pub root_panicked: bool,
     pub user: Vec<String>,
+    pub preemptions: u64,
+    pub edges: u64,
+    pub distinct_edges: u64,
 }
 
 static ROOT_PANICKED: AtomicBool = AtomicBool::new(false);
@@ -981,8 +1119,16 @@ pub fn run(cfg: Cfg, f: impl FnOnce() + Send + 'static) -> Outcome {
             max_live: 0,
             faults_fired: BTreeMap::new(),
             user: vec![],
+            edges: 0,
+            preemptions: 0,
             cfg,
         });
+        EDGE_COUNTDOWN = EDGE_OFF;
+        EDGE_BASE = EDGE_OFF;
+        SEEN = vec![0u64; (N_GUARDS as usize >> 6) + 2];
+        DISTINCT = 0;
+        DISTINCT_TARGET = u64::MAX;
+        PLANNED = false;
         DONE.store(0, SeqCst);
         ROOT_PANICKED.store(false, SeqCst);
         RUN_PID.store(libc::getpid(), SeqCst);
@@ -1045,6 +1191,9 @@ pub fn run(cfg: Cfg, f: impl FnOnce() + Send + 'static) -> Outcome {
             panics: r.panics,
             root_panicked: ROOT_PANICKED.load(SeqCst),
             user: r.user,
+            preemptions: r.preemptions,
+            edges: r.edges + (EDGE_BASE - EDGE_COUNTDOWN).max(0) as u64,
+            distinct_edges: DISTINCT,
         }
     }
 }
